@@ -12,9 +12,7 @@ import (
 	"testing"
 	"time"
 
-	"github.com/IBM/TSS/mpc/bls"
 	"github.com/IBM/TSS/mpc/ps"
-	"verif/backend/blsb"
 	"verif/backend/psb"
 	"verif/cryptolib"
 	"verif/explore"
@@ -51,7 +49,7 @@ func stack(s sess) *scen.Stack {
 	case "ps":
 		st.KGF, st.SF = psb.KeyGenFactory(1), psb.SignerFactory(1)
 	default:
-		st.KGF, st.SF = blsb.KeyGenFactory, blsb.SignerFactory
+		st.KGF, st.SF = blsFactories()
 	}
 	st.Pick = func([]byte, int) []uint16 { return members }
 	return st
@@ -238,7 +236,7 @@ func sessionRun(c *harness.C, s sess, stateStep int, injs []inj) (returned, succ
 }
 
 func sessionCase(s sess, state int, stateName string, source uint16, srcName, class, kind string, quick bool) harness.Case {
-	id := fmt.Sprintf("session/%s/%s/%s/%s/%s", s, stateName, srcName, class, kind)
+	id := fmt.Sprintf("%ssession/%s/%s/%s/%s/%s", buildPrefix, s, stateName, srcName, class, kind)
 	return harness.Case{ID: id, Run: func(c *harness.C) {
 		reps, _ := honest(c, s)
 		rep := reps[class]
@@ -315,15 +313,6 @@ func directCase(name string, quick bool, build func(c *harness.C) []art, call fu
 	}}
 }
 
-func blsArtefacts() (pk []byte, share []byte, sig []byte) {
-	shares, _ := cryptolib.DKG("bls", 3, 2, 1, nil, 20*time.Second)
-	sg, _ := cryptolib.BLSSigners(3, 2, shares)
-	pk, _ = sg[1].ThresholdPK()
-	d := sha256.Sum256([]byte("c10"))
-	sig, _ = sg[1].Sign(nil, d[:])
-	return pk, shares[1], sig
-}
-
 type psArts struct {
 	tpk, share, req, sig, pok []byte
 	secret                    ps.UnblindingSecret
@@ -356,43 +345,10 @@ func psArtefacts(l int) psArts {
 
 func directCases(quick bool) []harness.Case {
 	var cases []harness.Case
-	// BLS
-	cases = append(cases, directCase("bls.Verifier.Init", quick, func(c *harness.C) []art {
-		pk, _, _ := blsArtefacts()
-		return []art{{"public-params", pk}}
-	}, func(a art, v []byte) {
-		var vf bls.Verifier
-		if vf.Init(v) == nil {
-			d := sha256.Sum256([]byte("c10"))
-			vf.Verify(d[:], []byte{1, 2, 3})
-		}
-	}))
-	cases = append(cases, directCase("bls.Verifier.Verify+Aggregate", quick, func(c *harness.C) []art {
-		_, _, sig := blsArtefacts()
-		return []art{{"partial-signature", sig}}
-	}, func(a art, v []byte) {
-		pk, _, _ := blsArtefactsCached()
-		var vf bls.Verifier
-		vf.Init(pk)
-		d := sha256.Sum256([]byte("c10"))
-		vf.Verify(d[:], v)
-		vf.AggregateSignatures([][]byte{v, a.data}, []uint16{1, 2})
-	}))
-	cases = append(cases, directCase("bls.TBLS.SetShareData", quick, func(c *harness.C) []art {
-		_, sh, _ := blsArtefacts()
-		return []art{{"stored-data", sh}}
-	}, func(a art, v []byte) {
-		s := &bls.TBLS{Logger: world.NopLogger{}, Party: 1}
-		s.Init(cryptolib.IDs(3), 2, nil)
-		if s.SetShareData(v) == nil {
-			s.ThresholdPK()
-			d := sha256.Sum256([]byte("c10"))
-			s.Sign(nil, d[:])
-		}
-	}))
-	for _, be := range []string{"bls", "ps"} {
+	cases = append(cases, blsDirectCases(quick)...)
+	for _, be := range backendsLinked {
 		be := be
-		cases = append(cases, directCase(be+".ClassifyMsg+OnMsg", quick, func(c *harness.C) []art {
+		cases = append(cases, directCase(buildPrefix+be+".ClassifyMsg+OnMsg", quick, func(c *harness.C) []art {
 			// the three message kinds of a real run, as sent by party 2
 			var arts []art
 			seen := map[byte]bool{}
@@ -419,7 +375,7 @@ func directCases(quick bool) []harness.Case {
 	// PS
 	for _, l := range []int{1, 2} {
 		l := l
-		cases = append(cases, directCase(fmt.Sprintf("ps.TPS.Sign/L%d", l), quick, func(c *harness.C) []art {
+		cases = append(cases, directCase(fmt.Sprintf(buildPrefix+"ps.TPS.Sign/L%d", l), quick, func(c *harness.C) []art {
 			a := psArtefactsCached(l)
 			return []art{{"request", a.req}}
 		}, func(a art, v []byte) {
@@ -429,7 +385,7 @@ func directCases(quick bool) []harness.Case {
 			s.SetShareData(x.share)
 			s.Sign(context.Background(), v)
 		}))
-		cases = append(cases, directCase(fmt.Sprintf("ps.TPS.Sign-inner-proof/L%d", l), quick, func(c *harness.C) []art {
+		cases = append(cases, directCase(fmt.Sprintf(buildPrefix+"ps.TPS.Sign-inner-proof/L%d", l), quick, func(c *harness.C) []art {
 			a := psArtefactsCached(l)
 			var r ps.RawBlindSignature
 			if _, err := asn1Unmarshal(a.req, &r); err != nil {
@@ -449,7 +405,7 @@ func directCases(quick bool) []harness.Case {
 			s.SetShareData(x.share)
 			s.Sign(context.Background(), b)
 		}))
-		cases = append(cases, directCase(fmt.Sprintf("ps.Verifier.Verify/L%d", l), quick, func(c *harness.C) []art {
+		cases = append(cases, directCase(fmt.Sprintf(buildPrefix+"ps.Verifier.Verify/L%d", l), quick, func(c *harness.C) []art {
 			a := psArtefactsCached(l)
 			arts := []art{{"proof", a.pok}}
 			var r ps.RawSigPok
@@ -471,7 +427,7 @@ func directCases(quick bool) []harness.Case {
 			}
 			vf.Verify(v)
 		}))
-		cases = append(cases, directCase(fmt.Sprintf("ps.Verifier.Init+Prover.Init/L%d", l), quick, func(c *harness.C) []art {
+		cases = append(cases, directCase(fmt.Sprintf(buildPrefix+"ps.Verifier.Init+Prover.Init/L%d", l), quick, func(c *harness.C) []art {
 			a := psArtefactsCached(l)
 			return []art{{"threshold-pk", a.tpk}}
 		}, func(a art, v []byte) {
@@ -485,7 +441,7 @@ func directCases(quick bool) []harness.Case {
 				pr.UnBlind(1, x.sig, &x.secret)
 			}
 		}))
-		cases = append(cases, directCase(fmt.Sprintf("ps.Prover.UnBlind/L%d", l), quick, func(c *harness.C) []art {
+		cases = append(cases, directCase(fmt.Sprintf(buildPrefix+"ps.Prover.UnBlind/L%d", l), quick, func(c *harness.C) []art {
 			a := psArtefactsCached(l)
 			return []art{{"partial-signature", a.sig}}
 		}, func(a art, v []byte) {
@@ -494,7 +450,7 @@ func directCases(quick bool) []harness.Case {
 			pr.Init(cryptolib.Curve, l, x.tpk, cryptolib.IDs(3))
 			pr.UnBlind(1, v, &x.secret)
 		}))
-		cases = append(cases, directCase(fmt.Sprintf("ps.TPS.SetShareData/L%d", l), quick, func(c *harness.C) []art {
+		cases = append(cases, directCase(fmt.Sprintf(buildPrefix+"ps.TPS.SetShareData/L%d", l), quick, func(c *harness.C) []art {
 			a := psArtefactsCached(l)
 			return []art{{"stored-data", a.share}}
 		}, func(a art, v []byte) {
@@ -508,19 +464,6 @@ func directCases(quick bool) []harness.Case {
 		}))
 	}
 	return cases
-}
-
-var blsCache struct {
-	ok          bool
-	pk, sh, sig []byte
-}
-
-func blsArtefactsCached() ([]byte, []byte, []byte) {
-	if !blsCache.ok {
-		blsCache.pk, blsCache.sh, blsCache.sig = blsArtefacts()
-		blsCache.ok = true
-	}
-	return blsCache.pk, blsCache.sh, blsCache.sig
 }
 
 var psCache = map[int]*psArts{}
@@ -551,6 +494,12 @@ func gen(c *harness.C) []harness.Case {
 	sessions := []sess{{"loud", "bls"}, {"silent", "bls"}, {"loud", "ps"}}
 	if c.Thorough() {
 		sessions = append(sessions, sess{"silent", "ps"})
+	}
+	if !haveBLS {
+		sessions = []sess{{"loud", "ps"}}
+		if c.Thorough() {
+			sessions = append(sessions, sess{"silent", "ps"})
+		}
 	}
 	classes := []string{"t1/s1", "t1/s2", "t1/s3", "t2/m1", "t2/m2", "t2/m3", "t2/ack"}
 	srcs := []struct {
